@@ -619,6 +619,17 @@ def setup(run):
             Es = safe_basis(E, ok)
             c_ref, r_ref = rc.subspace_sphere(Es, model)
             foot = np.linalg.norm(rc.affine_foot(Es), axis=-1)
+        if model == "halfspace":
+            # the subspace's ideal boundary as a whole must stay away from the
+            # point at infinity (for two points 2/r >= their own distance)
+            with np.errstate(all="ignore"):
+                dinf = np.minimum(dinf, 2.0 / r_ref)
+            far = ok & (dinf >= INF_MARGIN)
+            if np.any(ok & ~far):
+                m_sub.skip("ideal boundary passes near the point at infinity")
+            ok = far
+            if not np.any(ok):
+                return
         cls = "ideal-basis=2" if k == 2 else "ideal-basis>=3"
 
         def key(what):
@@ -722,6 +733,12 @@ def setup(run):
         if not np.any(ok) or c is None or r is None:
             return
         Hb = rc.model_of_klein(E, "halfspace", ideal=True)[..., :-1]
+        with np.errstate(all="ignore"):
+            _, rb = rc.circumsphere(Hb)
+            dinf = np.minimum(dinf, 2.0 / rb)
+            ok = ok & (dinf >= INF_MARGIN)
+        if not np.any(ok):
+            return m_bnd.skip("ideal boundary passes near the point at infinity")
         with np.errstate(all="ignore"):
             on = np.max(np.abs(np.linalg.norm(Hb - c[..., None, :], axis=-1) - r[..., None]),
                         axis=-1) / np.abs(r)
